@@ -302,6 +302,73 @@ def r12_every_dequeued_chunk_is_written(ctx):
            "(e.g. a 'stream is gone' guard consulting the stream table, which a peer's FIN empties although FIN only ends the peer's direction)", path=None if ok else render_path(body, p))
 
 
+FRAMED_READS = ("AsyncReadExt::read_exact", "StreamReader::read_exact", "AsyncReadExt::read_u8", "AsyncReadExt::read_u16", "AsyncReadExt::read_u32",
+                "AsyncReadExt::read_to_end", "AsyncBufReadExt::read_line", "AsyncBufReadExt::read_until", "AsyncReadExt::read_to_string")
+
+
+def r13_no_cancel_and_retry_of_framed_reads(ctx):
+    """a multi-step read (read_exact & co., or a crate function that performs one) is never both handed to a cancelling
+    combinator (time::timeout, select!) and re-issued in a loop: the bytes the dropped future had already consumed are gone, so
+    the retry continues in the middle of a field / datagram / frame"""
+    from .C11 import _future_calls
+    # crate functions that (transitively, without crossing a spawn) perform a framed read
+    direct = set()
+    for key, body in ctx.P.bodies.items():
+        if any((c.norm or "").endswith(FRAMED_READS) for c in body.calls()):
+            direct.add(key)
+    readers = set(direct)
+    changed = True
+    while changed:
+        changed = False
+        for key in list(ctx.P.bodies):
+            if key in readers:
+                continue
+            if any(e.dst in readers for e in ctx.cg.out.get(key, []) if e.kind in ("call", "async", "await")):
+                readers.add(key)
+                changed = True
+    n = 0
+    for key, body in ctx.P.scan():
+        o = None
+        cfg = None
+        for c in body.calls():
+            nm = c.norm or ""
+            if nm.endswith(("time::timeout", "time::timeout_at")) and len(c.args) > 1:
+                o = o or ctx.origins(body)
+                front = [o.of_operand(c.args[1])]
+            elif nm.endswith("future::poll_fn") and c.args:
+                o = o or ctx.origins(body)
+                front = [o.of_operand(c.args[0])]
+            else:
+                continue
+            cfg = cfg or ctx.cfg(body)
+            if not cfg.in_cycle(c.bb):
+                continue
+            n += 1
+            ts, seen = [], set()
+            for _ in range(4):
+                nxt = []
+                for t in front:
+                    ts.append(t)
+                    for s_ in subterms(t):
+                        if isinstance(s_, tuple) and s_ and s_[0] == "var" and len(s_) > 2 and s_[2] not in seen:
+                            seen.add(s_[2])
+                            nxt.append(o.init_of(s_[2]))
+                front = nxt
+            hit = None
+            for t in ts:
+                for s_ in _future_calls(t):
+                    callee = s_[1]
+                    if callee.endswith(FRAMED_READS) or ctx.cg.resolve(body, callee) in readers or (ctx.cg.resolve(body, callee) or "") + "::{closure#0}" in readers:
+                        # the read must be re-issued by the loop, i.e. created inside the cycle
+                        if cfg.in_cycle(s_[2]) and s_[2] in cfg.cycle_blocks(c.bb):
+                            hit = s_
+            ctx.ob("R01.13", "%s|cancellable-read-in-loop#%d" % (ctx.P.owner(key), n), hit is None, c.site,
+                   "the looped %s does not wrap a framed read" % nm.split("::")[-1] if hit is None else
+                   "`%s` is wrapped in %s inside a loop that issues it again: when the other branch / the timer wins while the read has consumed part of its field, those bytes are lost and the next attempt starts "
+                   "mid-field (a shifted length prefix, a frame header read from payload bytes)" % (hit[1].split("::")[-1], "select!" if "poll_fn" in nm else "time::timeout"))
+    ctx.ob("R01.13", "crate:no-cancel-and-retry-of-framed-reads", True, "", "%d looped timeout/select sites examined, %d bodies perform framed reads" % (n, len(readers)), nontrivial=False)
+
+
 PARTIAL_WRITES = ("AsyncWriteExt::write", "AsyncWriteExt::write_buf", "AsyncWriteExt::write_vectored", "AsyncWrite::poll_write", "AsyncWriteExt::write_all_buf_partial",
                   "io::Write::write", "io::Write::write_vectored")
 
@@ -406,6 +473,7 @@ def r10_forwarding_slices(ctx):
 def run(ctx):
     from . import C04, C11
     r12_every_dequeued_chunk_is_written(ctx)
+    r13_no_cancel_and_retry_of_framed_reads(ctx)
     C04.r6_flushed_before_success(ctx)   # bytes reported as written are actually pushed to the transport
     C04.r1_waste_frames(ctx)    # a padding frame whose body is not the length its header announces desynchronises every later frame of the session
     C11.r3_open_order(ctx)      # the inbound queue exists before the SYN is on the wire: a peer that speaks first is not dropped
